@@ -472,6 +472,8 @@ func vSpecFiles() map[string]string {
 	return map[string]string{
 		"rec":  "name: rec\n" + head + vMsgNode("start", "id", "note") + vActNode("note", "start"),
 		"flip": "name: flip\n" + head + vMsgNode("start", "id", "note1") + vActNode("note1", "alt") + vMsgNode("alt", "id", "note2") + vActNode("note2", "start"),
+		"bigflip": "name: bigflip\n" + head + vMsgNode("start", "id", "note1") + vActNode("note1", "alt") +
+			strings.Repeat("  # "+strings.Repeat("padding ", 12)+"\n", 13000) + vMsgNode("alt", "id", "note2") + vActNode("note2", "start"),
 		"deaf": "name: deaf\n" + head + vMsgNode("start", "wake", "note") + vActNode("note", "start"),
 		// nan: no action; keeps what it bound from the message, the value of "poison" included (a NaN there makes the end
 		// state impossible to serialise: the action-less path never canonicalises the bindings)
